@@ -142,6 +142,11 @@ def run(ctx):
                 jobs.append((cfg, prog, 'dfs', 800 if thorough else 300, ctx['seed'], ('--pb', '2')))
                 jobs.append((cfg, prog, 'prefix', 60, ctx['seed'], ()))
                 jobs.append((cfg, prog, 'random', 400 if thorough else 150, ctx['seed'], ()))
+            # guards on a MARKED NULL pointer (nullptr with a mark): constructed, copied, moved and destroyed next to a guard that protects a
+            # real object - their bookkeeping (critical-region nesting, slots) must stay balanced, the other guard keeps protecting
+            for mk in (['cctor 0'], ['copy 0 2', 'drop 2'], ['mctor 0'], ['move 0 2', 'drop 2'], ['self 0'], ['swap 0 2', 'drop 2', 'drop 0']):
+                jobs.append((cfg, [['clear 0', 'mark 0', 'hold 1 1', 'hold 0 0'] + mk + ['drop 0'] + ['repl 1'] * 8 + ['deref 1', 'hold 1 1'] + ['repl 1'] * 8 + ['deref 1']], 'opseq', 1, ctx['seed'], ()))
+                jobs.append((cfg, [['clear 0', 'mark 0', 'hold 1 1', 'hold 0 0'] + mk + ['drop 0', 'deref 1', 'deref 1'], ['repl 1'] * 8], 'prefix', 80, ctx['seed'], ()))
             do_search(ctx, H, jobs, name, classify=lambda c, h, f, name=name: {'harness': name})
             continue
         K = rc.K_of(name)
